@@ -5,7 +5,9 @@ Operation sequences on the real Deque (values inline and file-backed, maxlen in
 rotate/reverse/maxlen changes, extend/extendleft/+=, count/remove under ==,
 the six comparisons against near misses of the contents, copy/pickle/reopen
 handles) against DC.Model.Layers.Deque (result + the whole
-underlying table); producers and consumers as real threads with own handles on
+underlying table); the real results of the calls DC.DSpec covers are also
+compared with that Lean bounded list (theorem drun_refines); Deques made by
+FanoutCache.deque() and a size limit of 0 included; producers and consumers as real threads with own handles on
 one bounded deque under the deterministic scheduler, linearized on that model; acceptor: collections.deque with the same maxlen executes
 the same operations and must give the same results and contents."""
 import collections
@@ -22,6 +24,8 @@ EQUAL_SPELLINGS = [1.0, 2.0, 0.0, 'zz', 7]     # equal to a stored value under =
 def gen_history(rng, length):
     maxlen = rng.choice([None, None, 0, 1, 3, 5])
     cfg = {'mfs': rng.choice([8, 16]), 'maxlen': maxlen, 'proto': rng.choice([2, 4, 5])}
+    cfg['via'] = rng.choice([None, None, 'fanout'])          # the object FanoutCache.deque()/index() hands out
+    cfg['limN'] = rng.choice([2 ** 30, 2 ** 30, 0])          # a size limit of 0: still nothing may be evicted
     ops = []
     mirror = collections.deque(maxlen=maxlen)
     for _ in range(length):
@@ -217,6 +221,48 @@ def probe_d17():
         shutil.rmtree(d, ignore_errors=True)
 
 
+
+
+def against_lean_spec(hists, impl_out, head):
+    """the results of the REAL code against the executable Lean specification (`dsop` lines: the same
+    fields as the `lop` lines, answered by the reference structure of the refinement theorem).
+    -> (number of results compared, [disagreement])"""
+    import corr
+    lines, index = [], []
+    for i, io in enumerate(impl_out):
+        for j, (line, ans) in enumerate(io):
+            if line.startswith('lcfg '):
+                lines.append(line)
+                index.append(None)
+            elif line.startswith('lop '):
+                lines.append(head + ' ' + line[4:])
+                index.append((i, j))
+    got = corr.run_driver(lines)
+    out, compared, seen = [], 0, set()
+    for ij, l, g in zip(index, lines, got):
+        if ij is None or ij[0] in seen:
+            continue
+        i, j = ij
+        want = impl_out[i][j][1].split(' | ')[0]
+        compared += 1
+        if g != want:
+            seen.add(i)
+            nth = sum(1 for (l2, _) in impl_out[i][:j] if l2.startswith('lop '))
+            out.append({'history': i, 'op_index': nth, 'line': l, 'impl': want, 'spec': g})
+    return compared, out
+
+
+DSPEC_OPS = {'append', 'appendleft', 'pop', 'popleft', 'peek', 'peekleft', 'len', 'clear', 'getitem', 'iter', 'riter'}
+
+
+def spec_history(rng, length):
+    """a history of the calls the bounded-list specification DC.DSpec covers (theorem drun_refines)"""
+    h = gen_history(rng, length * 2)
+    h['ops'] = [op for op in h['ops'] if op['m'] in DSPEC_OPS][:length] + [{'m': 'iter', 'now': 1000}]
+    h['state_every'] = 0
+    return h
+
+
 def conc_case(args):
     """producers and consumers on one bounded Deque directory, each with its own handle, under the
     deterministic scheduler; acceptor: linearizable on DC.Model.Layers.Deque (so every item that
@@ -246,14 +292,14 @@ def conc_case(args):
              'pcc': [producer('a'), consumer(), consumer()]}[shape]
     programs = {i: p for i, p in enumerate(progs)}
     scheds = []
-    bound = 26 if tier == 'quick' else 60
+    bound = 26 if tier == 'quick' else 40
     n = len(programs)
     for a in range(n):
         for b in range(n):
             if a != b:
                 for k in range(0, bound):
                     scheds.append([a] * k + [b] * 300 + [a] * 300)
-    for _ in range(6 if tier == 'quick' else 40):
+    for _ in range(6 if tier == 'quick' else 20):
         scheds.append(rng.choices(range(n), k=rng.randint(5, 80)))
     out = []
     for sch in scheds:
@@ -270,9 +316,23 @@ def run(tier, seed, rng, known, replay):
     hists = [gen_history(rng, rng.choice([10, 25, 60])) for _ in range(n)]
     r = base.check_histories('C11', hists, ('result', 'state'), acceptor=acceptor, known=known, runner=layers.layer_chunk)
     dist, distinct = base.op_distribution(hists, r['impl_out'])
+    # the real Deque against the Lean bounded list (the specification side of drun_refines)
+    n_spec = 150 if tier == 'quick' else 2500
+    shists = [spec_history(rng, rng.choice([10, 30, 60])) for _ in range(n_spec)]
+    rs = base.check_histories('C11', shists, ('result', 'state'), acceptor=acceptor, known=known, runner=layers.layer_chunk)
+    compared, bad = against_lean_spec(shists, rs['impl_out'], 'dsop')
+    r['violations'] = list(r['violations']) + list(rs['violations'])
+    for b in bad[:2]:
+        h = shists[b['history']]
+        what = 'call #%d %s returns %s, the bounded list DC.DSpec returns %s' % (b['op_index'], b['line'][:90], b['impl'][:60], b['spec'][:60])
+        r['violations'].append({'replay': {'property': 'C11', 'kind': 'spec-disagreement', 'cls': 'deque', 'cfg': h['cfg'],
+                                           'ops': base.tag(h['ops'][:b['op_index'] + 1]), 'line': b['line'], 'impl': b['impl'], 'spec': b['spec'],
+                                           'acceptor': what, 'spec_part': 'DC.DSpec.step (lean/DC/Model/DSpec.lean); refinement theorem DC.Deque.drun_refines'},
+                                'found_input': True, 'what': 'property violated on the implementation: ' + what})
+    r['divergent'] += rs['divergent']
     # concurrent producers / consumers
     from concurrent.futures import ProcessPoolExecutor
-    n_cases = 16 if tier == 'quick' else 200
+    n_cases = 16 if tier == 'quick' else 64
     jobs = [(rng.getrandbits(48), tier) for _ in range(n_cases)]
     with ProcessPoolExecutor(max_workers=16) as ex:
         cases = list(ex.map(conc_case, jobs, chunksize=1))
@@ -297,6 +357,6 @@ def run(tier, seed, rng, known, replay):
         'rule': 'seeded Deque operation sequences (lengths 10-60) over inline and file-backed values, maxlen in {None,0,1,3,5} and changed on the fly, '
                 'indices in [-7,7], rotate in [-9,9]; scheduled producers/consumers (own handles on one bounded deque, every single-preemption schedule up to the bound + random ones) linearized on the Lean model; distinct = distinct (method, result) pairs',
         'samples': [base.sample(hists[0], r['impl_out'][0])], 'traces': len(hists),
-        'dist': dict(dist, histories=len(hists), divergent=r['divergent'], concurrent_cases=n_cases, concurrent_runs=conc_runs),
+        'dist': dict(dist, histories=len(hists), divergent=r['divergent'], concurrent_cases=n_cases, concurrent_runs=conc_runs, spec_histories=n_spec, results_compared_with_lean_spec=compared, spec_disagreements=len(bad)),
         'violations': r['violations'], 'known': r['known'],
     }
